@@ -7,7 +7,9 @@
    allows.  Every case is a scenario.                                                          *)
 EXTENDS TrustStoreOps, TLC, Json
 
-CONSTANTS MaxChains, Expiries, KeyRings
+CONSTANTS MaxChains, Expiries, KeyRings,
+          GraceBoundByLatest   \* TRUE: the grace expiry is also bounded by the latest TRC's validity (the code after
+                               \* the fix); FALSE: shape of the code as found
 
 Cert(id, kind, signer, nb, na, ia, key) ==
     [id |-> id, kind |-> kind, signer |-> signer, nb |-> nb, na |-> na, ia |-> ia, key |-> key]
@@ -68,7 +70,9 @@ CodeSigners(tl, ring, chains) ==
                 THEN {[key |-> k, chain |-> ch, ingrace |-> FALSE, exp |-> Min2(ChainExp(Pool, ch), L.na)] : ch \in best(cand(k, L))}
               ELSE IF grace /\ tl.two
                 THEN {[key |-> k, chain |-> ch, ingrace |-> TRUE,
-                       exp |-> Min2(Min2(ChainExp(Pool, ch), L.nb + L.grace), P.na)] : ch \in best(cand(k, P))}
+                       exp |-> IF GraceBoundByLatest
+                                 THEN Min2(Min2(Min2(ChainExp(Pool, ch), L.nb + L.grace), P.na), L.na)
+                                 ELSE Min2(Min2(ChainExp(Pool, ch), L.nb + L.grace), P.na)] : ch \in best(cand(k, P))}
               ELSE {} : k \in ring}
 
 Sound == cs.kind = "signer" =>
